@@ -522,7 +522,7 @@ def thm(pid, mods, names):
     PROPS[pid]["theorems"] = [(n if n.startswith("SkinnyVerif.") else P + n) for n in names]
 
 thm("C01", ["C01"], ["C01_skinny128", "C01_skinny64"])
-thm("C03", ["C03", "C03M"], ["C03_skinny128", "C03_skinny64", "C03_tweaked128", "C03_tweaked64", "spec128_dec_enc", "spec128_enc_dec", "spec64_dec_enc", "spec64_enc_dec",
+thm("C03", ["C03", "C03M", "C07V"], ["C12_vec_unaligned_paths", "C07_vec128_block", "C07_vec256_block", "C07_vec64_block", "C03_skinny128", "C03_skinny64", "C03_tweaked128", "C03_tweaked64", "spec128_dec_enc", "spec128_enc_dec", "spec64_dec_enc", "spec64_enc_dec",
             "C03_mantis_spec", "C03_mantis_impl", "crypt_flip", "C02_swap_enc_is_dec"])
 thm("C04", ["C04"], ["C04_skinny128", "C04_skinny64"])
 VEC_INC = ["C05_v128c_increment", "C05_v256c_increment", "C05_v64c_increment", "C05_vmc_increment"]
@@ -551,7 +551,7 @@ thm("C02", ["C02", "C10"], ["C02_mantis", "C02_swap_modes", "C02_swap_enc_is_dec
 thm("C07", ["C07", "C07V"], ["C07_skinny128", "C07_skinny64", "parallelBlocks_eq_ecb", "ecb_length", "C07_parallel_size",
             "C07_vec128_block", "C07_vec128_spec", "vecEnc4_block", "vecDec4_block",
             "C07_vec256_block", "C07_vec256_spec", "vecEnc8_block", "vecDec8_block",
-            "C07_vec64_block", "C07_vec64_spec", "vecEnc8h_block", "vecDec8h_block"])
+            "C07_vec64_block", "C07_vec64_spec", "vecEnc8h_block", "vecDec8h_block", "C12_vec_unaligned_paths"])
 thm("C08", ["C08"], ["C08_no_leak_events", "C08_table_complete"])
 thm("C09", ["C08"], ["C09_block_functions", "C09_table_complete", "C11_no_junk_in_loaders"])
 PROPS["C09"]["modules"].append("SkinnyVerif.Properties.C11")
@@ -560,5 +560,5 @@ thm("C19", ["C19", "C19M", "C06"], ["C19_skinny128", "C19_skinny128_eq_C", "C19_
             "opsArd128_correct", "opsArd64_correct", "SkinnyVerif.Lemmas.mantisPieces_ard", "SkinnyVerif.Lemmas.mantisKeys_ard", "C05_stream"])
 thm("C20", ["C20"], ["C20_ctr_tool", "C20_ctr_tool_roundtrip", "C20_ecb_tool", "C20_increment_tweak", "C20_tweak_of_block", "C20_tweak_tool", "readChunks_flatten"])
 thm("C11", ["C11"], ["C11_skinny128", "C11_skinny64", "C11_tweaked128", "C11_no_junk_in_loaders"])
-thm("C12", ["C12"], ["C12_skinny128", "C12_skinny64", "C12_tweaked128", "C12_tweaked64"])
+thm("C12", ["C12", "C07V"], ["C12_skinny128", "C12_skinny64", "C12_tweaked128", "C12_tweaked64", "C12_vec_unaligned_paths"])
 thm("C10", ["C10"], ["C10_skinny128_set_key", "C10_skinny64_set_key", "C10_null_key128", "C10_null_key64", "C10_mantis_set_key"])
